@@ -10,6 +10,11 @@
 // transaction re-reads the dump from the store ("persisting and reloading never changes a value").
 // In addition every sequence (<= k-1) is run as ONE MsgRun script that calls each op through a crossing call
 // (realm finalization at every boundary, object cache kept).
+//
+// Families s9 and s10 were added after seeded misses (see mutants/NOTES.md): s9 puts ONE child into SEVERAL slots of a
+// new parent while the child is unloaded and releases the slots one per op; it is explored in quiet mode
+// (rx.Family.Quiet: the op transaction does not dump, the cold-dump transaction observes). s10 applies the copying
+// builtins to stored slices of composite values and writes through the result.
 package main
 
 import (
@@ -50,12 +55,24 @@ func main() {
 		n = *nflag
 	}
 	var sel []*rx.Family
-	for _, f := range shapes.AllC06() { // the 8 single-realm families + the two-realm family (no reference: its cuts are compared with each other)
+	// menu sizes (quick, thorough) of the families whose ops are mostly idempotent / self-loops (cheap under state memoisation)
+	// and their maximal sequence lengths: {n quick, n thorough, k quick, k thorough}
+	ownN := map[string][4]int{"s9": {4, 10, 4, 5}, "s10": {8, 10, 3, 4}}
+	for _, f := range shapes.AllC03() { // the 8 single-realm families + the two-realm family (no reference: its cuts are compared with each other) + s9 (quiet) + s10
 		if *fams != "" && !strings.Contains(","+*fams+",", ","+f.Name+",") {
 			continue
 		}
 		fn := n
 		// (QuickN is the C06 menu size of the two-realm family; C03 uses the common size)
+		if o, ok := ownN[f.Name]; ok && *nflag == 0 {
+			fn, f.K = o[0], o[2]
+			if r.Thorough() {
+				fn, f.K = o[1], o[3]
+			}
+			if *kflag > 0 {
+				f.K = 0
+			}
+		}
 		if len(f.Ops) > fn {
 			f.Ops = f.Ops[:fn]
 		}
@@ -90,7 +107,7 @@ func main() {
 		"state memoisation: the subtree below a history is skipped when the persisted bytes of the realm (all objects + realm record) equal those of a history already expanded with at least the same remaining depth in the same task; the cold-dump transaction is run once per distinct persisted state per task (a transaction is a deterministic function of the store)",
 		"snapshots between transactions use a cache-wrapped deliver state (chainx.Push); every reported deviation is first reproduced on a fresh chain with one committed block per transaction",
 	}
-	r.Finish(fmt.Sprintf("per realm family (%d families, menu of %d ops): all op sequences of length <= %d x every cut of the sequence into transactions (each tx one MsgCall via DeliverTx) + cold re-dump after every tx + every sequence <= %d as one MsgRun with a crossing call per op; oracle: op return strings and canonical Dump() equal to the in-memory GnoVM run; distinct = distinct transaction histories", len(sel), n, k, k-1), !r.Capped(), map[string]any{
+	r.Finish(fmt.Sprintf("per realm family (%d families, menu of %d ops): all op sequences of length <= %d (s9: first 4 quick / 10 thorough ops, quiet mode = no dump in the op tx; s10: length <= 3 over 8 ops quick, <= 4 over 10 ops thorough) x every cut of the sequence into transactions (each tx one MsgCall via DeliverTx) + cold re-dump after every tx + every sequence <= %d as one MsgRun with a crossing call per op; oracle: op return strings and canonical Dump() equal to the in-memory GnoVM run; distinct = distinct transaction histories", len(sel), n, k, k-1), !r.Capped(), map[string]any{
 		"states": x.States.Load(), "transitions": x.Txs.Load(), "traces_validated_against_impl": x.Txs.Load(), "depth": k,
 		"histories": x.Nodes.Load(), "memo_hits": x.MemoHits.Load(), "cold_dump_memo_hits": x.ColdHits.Load(), "msgrun_scripts": x.RunTxs.Load(), "menu_size": n, "go_vs_gno_in_memory_differences": gd,
 	})
